@@ -16,11 +16,11 @@ TECHNIQUE = "metamorphic: E(mu2<-mu1)E(mu1<-mu0) vs E(mu2<-mu0) from three fresh
 RULE = (
     "Generated scale triples (mu0, mu1, mu2) with the intermediate point on the direct flavour path: inside one patch, "
     "across one matching scale (intermediate point before or after the matching), including legs that run down in scale "
-    "inside a patch before a matching; LO/NLO (thorough: NNLO), iterate-exact with 30-60 iterations (quick tier: 20); grids of 15 (quick: 10) and 25-30 "
+    "inside a patch before a matching (also ending below their starting scale, with an inversion method configured); LO/NLO (thorough: NNLO), iterate-exact with 30-60 iterations (quick tier: 40); grids of 15 (quick: 10) and 25-30 "
     "points on [1e-2, 1], degree 3-4; smooth toy PDFs. Three solves per grid; the split result E2(E1 f) and the direct "
     "result E f must agree at every grid point within 1e-3 of the largest flavour at that x (plus 1e-3 of the largest "
     "value overall times 1e-3 as absolute floor) on the fine grid, and the discrepancy on the fine grid must be smaller "
-    "than on the coarse grid (unless both are below 1e-6). Non-trivial = both legs change a_s by more than 5%; distinct "
+    "than on the coarse grid (unless both are below 1e-6). Six sevenths of the cases are cheap 'coarse-only' cases (12-point grid, LO/NLO) that cover the path shapes broadly and only assert that split and direct results agree within 6e-2 (5x the largest discrepancy measured on correct code), i.e. they detect plumbing-size errors. Non-trivial = both legs change a_s by more than 5%; distinct "
     "by (order, path shape, nf0, directions of the legs)."
 )
 ASSUMPTIONS = [
@@ -35,10 +35,13 @@ LEVEL_TEXT = (
 )
 
 
+COARSE_TOL = 6e-2  # 12-point grid: measured discrepancy of correct code <= 1.3e-2 (interpolation error of composed operators)
+
+
 def budget(tier):
     if tier == "quick":
-        return dict(max_examples=3, shards=3, wall_s=170, shrink_s=0)
-    return dict(max_examples=32, shards=8, wall_s=3000, shrink_s=0)
+        return dict(max_examples=15, shards=3, wall_s=240, shrink_s=0)
+    return dict(max_examples=120, shards=8, wall_s=3000, shrink_s=0)
 
 
 def strategy(tier):
@@ -49,7 +52,7 @@ def strategy(tier):
         quick = tier == "quick"
         order = draw(st.sampled_from((1, 1, 2) if quick else (1, 2, 2, 3)))
         masses = [1.51, 4.92, 172.5]
-        kind = draw(st.sampled_from(("inside", "cross-after", "cross-before", "down-then-match", "backward")))
+        kind = draw(st.sampled_from(("inside", "cross-after", "cross-before", "down-then-match", "down-match-up-short", "backward")))
         nf0 = draw(st.sampled_from((3, 4)))
         w = masses[nf0 - 3]
         f1 = draw(st.floats(1.5, 3.0))
@@ -82,18 +85,25 @@ def strategy(tier):
             mu1 = w * (1 + (f1 - 1) * draw(st.floats(0.2, 0.6)))
             mu2 = w * f1 * f2
             pts = [[mu0, nf0], [mu1, nf0], [mu2, nf0 + 1]]
+        elif kind == "down-match-up-short":  # first leg: down to the wall, matching, up again but ending below its start
+            mu0 = w * f1
+            mu1 = w * (1 + (f1 - 1) * draw(st.floats(0.3, 0.8)))
+            mu2 = w * f1 * f2
+            pts = [[mu0, nf0], [mu1, nf0 + 1], [mu2, nf0 + 1]]
         else:  # backward across the wall: nf0+1 -> nf0
             mu0 = w * f1 * 1.3
             mu1 = w * draw(st.floats(1.1, 1.25))
             mu2 = w / f2
             pts = [[mu0, nf0 + 1], [mu1, nf0 + 1], [mu2, nf0]]
             inv = "exact"
+        if inv is None and draw(st.booleans()):
+            inv = draw(st.sampled_from(("exact", "expanded")))  # irrelevant without a downward matching, but valid
         pts = [[float(m), int(n)] for m, n in pts]
         mu_low = min(p[0] for p in pts + [[w, 0]] if p[0] > 0)
         alpha_low = draw(st.floats(0.22, 0.33))
         card = dict(
             order=[order, 0], ref=[float(mu_low), ru.natural_nf(mu_low, masses)], alphas=float(alpha_low), masses=masses,
-            ratios=[1.0, 1.0, 1.0], method="iterate-exact", iters=(20 if quick else draw(st.integers(30, 60))) if order > 1 else 1,
+            ratios=[1.0, 1.0, 1.0], method="iterate-exact", iters=(40 if quick else draw(st.integers(30, 60))) if order > 1 else 1,
             deg=draw(st.sampled_from((3, 4))), inv=inv, cores=5 if quick else 2,
         )
         nq = draw(st.integers(2, 3))
@@ -107,7 +117,18 @@ def strategy(tier):
         fine = draw(st.integers(25, 26 if quick else 30))
         return {"kind": kind, "points": pts, "card": card, "pdf": pdf, "grids": [10 if quick else 15, fine]}
 
-    return build()
+    def coarsen(case):
+        case = dict(case)
+        case["grids"] = [12]
+        case["coarse_only"] = True
+        card = dict(case["card"])
+        card["order"] = [min(card["order"][0], 2), 0]
+        card["iters"] = 20 if card["order"][0] > 1 else 1
+        case["card"] = card
+        return case
+
+    # cheap coarse-grid cases cover the path shapes broadly; few full cases carry the stated accuracy claim
+    return st.one_of(build(), *[build().map(coarsen)] * 6)
 
 
 def evolve(card, p_from, p_to, xs, f):
@@ -161,6 +182,16 @@ def check_case(case):
         return CaseResult(discarded=f"refused:{type(e).__name__}")
     except ru.SolveCrashed as e:  # crashes are C04's verdict
         return CaseResult(discarded="crash(decided by C04):" + str(e)[:80])
+    if case.get("coarse_only"):
+        (n_c, d_c, j_c), = disc
+        res.classes.append("grid=coarse-only")
+        if not d_c <= COARSE_TOL:
+            res.fail(
+                f"{ID}/split-vs-direct-coarse/kind={case['kind']}/order={order}",
+                f"points {pts}: on a {n_c}-point grid split and direct evolution differ by {d_c:.3e} (relative to the largest "
+                f"flavour, at grid index {j_c}), far beyond the interpolation error of such a grid (<= {COARSE_TOL})",
+            )
+        return res
     (n_c, d_c, _), (n_f, d_f, j_f) = disc
     if not d_f <= 1e-3:
         res.fail(
